@@ -225,7 +225,7 @@ func checkPipeline(w *core.Worker, rr *core.Rand, k int, reuse bool, chunked boo
 func RunC06(r *core.Run) {
 	r.Rule = "case = (well-formed header block, declared Content-Length n in {absent, < = > available bytes, 0..70000}, available body bytes, all 8 flag sets, capacities): expected (verdict, offset, Body, RawMsg, Buf, Parsed()) by construction from the table of the statement: skip-body -> body start; CLen-required & skip-body & none -> ErrHdrNoCLen at the body start; present & enough -> exactly n bytes; present & short -> more-bytes, or truncated body iff no-more-data; absent & CLen-required -> empty body; absent & neither -> rest of buffer; pipelining: k in 1..6 messages back to back, parsed one after another from each returned offset with a Reset object (and with fresh objects), one-shot and with the stream delivered in random pieces: every message seen exactly once, in order, sum of consumed = stream length, each result == the message parsed alone shifted by its offset; non-trivial = every framing case / pipeline; distinct by hash"
 	r.Assume = []string{"the Content-Length that counts is the first such header (long or compact name)"}
-	n := r.Pick(800000, 10000000)
+	n := r.Pick(800000, 50000000)
 	r.Stage("framing-table", n, func(w *core.Worker, idx int64) {
 		rr := core.NewRand(r.Seed, 0xC06, 1, uint64(idx))
 		avail := rr.Intn(50)
@@ -257,7 +257,7 @@ func RunC06(r *core.Run) {
 		}
 	})
 	// large bodies up to the addressing limit
-	r.Stage("framing-large", r.Pick(300, 5000), func(w *core.Worker, idx int64) {
+	r.Stage("framing-large", r.Pick(300, 25000), func(w *core.Worker, idx int64) {
 		rr := core.NewRand(r.Seed, 0xC06, 2, uint64(idx))
 		target := []int{65535, 65535, 60000, 40000, 65534}[rr.Intn(5)]
 		base := target - 700
@@ -271,7 +271,7 @@ func RunC06(r *core.Run) {
 		}
 		w.Nontrivial(core.HashBytes(raw2[:H2]) ^ uint64(declared))
 	})
-	r.Stage("pipelining", r.Pick(400000, 6000000), func(w *core.Worker, idx int64) {
+	r.Stage("pipelining", r.Pick(400000, 30000000), func(w *core.Worker, idx int64) {
 		rr := core.NewRand(r.Seed, 0xC06, 3, uint64(idx))
 		k := rr.Range(1, 6)
 		if checkPipeline(w, rr, k, idx%2 == 0, idx%4 >= 2) {
